@@ -108,6 +108,8 @@ class SequenceMutator(CollectionAttrMutator):
         )
 
     def remove_item(self, value_or_index, *, by_index=MISSING):  # pylint: disable=arguments-differ
+        if self.collection is MISSING:  # Nothing to remove from: report it like an empty collection would.
+            self.collection = self._create_collection()
         index, _ = self._extractor(
             value_or_index, by_index=by_index, raise_if_missing=True
         )
